@@ -5,10 +5,20 @@ use async_std::path::Path;
 
 pub async fn clean_target_output_paths(target: &Target) -> Result<()> {
     if let Some(output) = target.output() {
+        let project_dir = &target.metadata().project_dir;
         for resource in &output.files {
             if resource.extensions.is_some() {
+                // Never delete anything reached through a symbolic link
+                let mut paths = Vec::with_capacity(resource.paths.len());
+                for path in &resource.paths {
+                    if is_symlink(path).await || is_behind_symlink(project_dir, path).await {
+                        log::warn!("{} - Not cleaning through symbolic link {}", target, path.display());
+                    } else {
+                        paths.push(path.clone());
+                    }
+                }
                 let resource_files =
-                    crate::fs::list_files_in_paths(&resource.paths, &resource.extensions).await;
+                    crate::fs::list_files_in_paths(&paths, &resource.extensions).await;
                 for file in resource_files {
                     fs::remove_file(&file)
                         .await
@@ -16,13 +26,37 @@ pub async fn clean_target_output_paths(target: &Target) -> Result<()> {
                 }
             } else {
                 for output_path in &resource.paths {
-                    clean_path(output_path).await?;
+                    if is_behind_symlink(project_dir, output_path).await {
+                        log::warn!("{} - Not cleaning through symbolic link {}", target, output_path.display());
+                    } else {
+                        clean_path(output_path).await?;
+                    }
                 }
             }
         }
     }
 
     Ok(())
+}
+
+async fn is_symlink(path: &Path) -> bool {
+    path.symlink_metadata()
+        .await
+        .map(|metadata| metadata.file_type().is_symlink())
+        .unwrap_or(false)
+}
+
+/// True if a directory between `project_dir` and `path` (both excluded) is a symbolic link.
+async fn is_behind_symlink(project_dir: &Path, path: &Path) -> bool {
+    for ancestor in path.ancestors().skip(1) {
+        if ancestor == project_dir || !ancestor.starts_with(project_dir) {
+            break;
+        }
+        if is_symlink(ancestor).await {
+            return true;
+        }
+    }
+    false
 }
 
 async fn clean_path(path: &Path) -> Result<()> {
